@@ -263,6 +263,16 @@ func c11History(k *fw.K, quick bool) {
 	}
 	completed := 0
 	omitted := -1
+	monitored := (m.Variant == "plain" || m.Variant == "vary-batch" || m.Variant == "reuse-batch") && r.Intn(3) == 0
+	glue := 0
+	if r.Intn(4) == 0 {
+		glue = 1 + r.Intn(2)
+		k.Count("histories_with_shape_neutral_glue_before_the_loss", 1)
+	}
+	swapped := m.Loss == "mse" && r.Intn(5) == 0
+	if swapped {
+		k.Count("histories_with_the_mse_arguments_swapped", 1)
+	}
 	// "reuse-batch": in half of those histories the very same data / label tensor OBJECTS are fed at every step
 	// (full-batch training), given a fresh context between steps exactly like the weights
 	var xObj, tObj tensor.Tensor
@@ -350,9 +360,48 @@ func c11History(k *fw.K, quick bool) {
 					return
 				}
 			}
+			if glue > 0 { // shape glue that changes nothing: Reshape to the tensor's own shape, Flatten of an already flat tensor
+				stage = "shape-neutral glue"
+				switch {
+				case glue == 1:
+					y, err = y.Reshape(y.Shape())
+				case len(y.Shape()) == 2:
+					y, err = y.Flatten(1)
+				default:
+					y, err = y.Flatten(0)
+				}
+				if err != nil {
+					return
+				}
+			}
 			stage = "loss"
-			if l, err = loss.Compute(y, tIn); err != nil {
+			if swapped {
+				l, err = loss.Compute(tIn, y) // the squared error is symmetric in its arguments
+			} else {
+				l, err = loss.Compute(y, tIn)
+			}
+			if err != nil {
 				return
+			}
+			if monitored {
+				// read-outs of the step, taken before the back-propagation and never back-propagated themselves: tracked
+				// consumers of the prediction, of the loss and of the weights that lie outside the graph of the loss
+				stage = "monitoring read-outs"
+				_ = y.Scale(2)
+				_ = l.Scale(1)
+				if m.Loss != "ce" {
+					if mo, e := lossObj("mse").Compute(y, tIn); e != nil || mo == nil {
+						err = fmt.Errorf("a second loss over the prediction: %v", e)
+						return
+					}
+				} else {
+					_ = y.Exp()
+				}
+				if _, e := (*ws[0].Value).Mul(*ws[1].Value); e != nil {
+					err = e
+					return
+				}
+				k.Count("steps_with_monitoring_read_outs", 1)
 			}
 			stage = "BackPropagate"
 			err = tensor.BackPropagate(l)
